@@ -329,8 +329,13 @@ CORPUS = [
                      "revpast": x[7:2:-1], "revlen": x[5::-1, 0], "revfar": x[100::-2]}),
     _P("adv_index", [ph("x", (4, 3, 2)), ph("i", (2,), I64), ph("j", (2, 1), I64)],
        lambda L, x, i, j: {"a": x[i], "b": x[:, i], "c": x[i, :, i], "d": x[j, i % 3], "e": x[i, 1], "f": x[1:3, i % 3, ::-1],
-                           "g": x[i, :, 0]},
+                           "g": x[i, :, 0], "h": x[1, i % 3], "k": x[2, i % 3, :], "l": (2 * x)[0, i % 3, 1:] + 1},
        tags=("advidx",), index_ranges={"i": (-2, 2), "j": (-4, 4)}),
+    _P("adv_index_4d", [ph("x", (2, 3, 2, 3)), ph("i", (2,), I64), ph("j", (2,), I64)],
+       # non-contiguous groups that start with slices, groups ending in ints, reversed/stepped slices around them
+       lambda L, x, i, j: {"a": x[:, i, :, j], "b": x[:, i, :, -1], "c": x[::-1, 2, 1:2, i], "d": x[:, i, j % 2, :],
+                           "e": x[1, :, i % 2, j], "f": x[:, :, i % 2, j], "g": x[i % 2, :, :, j]},
+       tags=("advidx",), index_ranges={"i": (-3, 3), "j": (-3, 3)}),
     _P("creation", [ph("x", (3, 3))],
        lambda L, x: {"z": L.zeros((3, 3)) + x, "o": L.ones((3,), dtype=I32) * 2, "f": L.full((2, 3), 7.5), "eye": L.eye(3) * x,
                      "eyek": L.eye(3, 4, k=1), "ar": L.arange(3) * 2 + x, "zl": L.zeros_like(x), "ol": L.ones_like(x) + x}),
